@@ -401,6 +401,21 @@ pub struct WorkerArgs {
     pub only: Option<(usize, u64)>,
 }
 
+// CPU time used by this process / by the calling thread, in milliseconds.
+pub fn process_cpu_ms() -> u64 {
+    cpu_ms(libc::CLOCK_PROCESS_CPUTIME_ID)
+}
+
+pub fn thread_cpu_s() -> f64 {
+    cpu_ms(libc::CLOCK_THREAD_CPUTIME_ID) as f64 / 1000.0
+}
+
+fn cpu_ms(clock: libc::clockid_t) -> u64 {
+    let mut ts = libc::timespec { tv_sec: 0, tv_nsec: 0 };
+    unsafe { libc::clock_gettime(clock, &mut ts) };
+    ts.tv_sec as u64 * 1000 + ts.tv_nsec as u64 / 1_000_000
+}
+
 fn worker(args: WorkerArgs) {
     IS_WORKER.store(1, Ordering::Relaxed);
     tune_allocator();
@@ -408,19 +423,25 @@ fn worker(args: WorkerArgs) {
     set_memory_limit(if prop.stack_mb() > 64 { 24 } else { 8 });
     // Silence the default panic hook: panics of the subject are caught and reported by the checks.
     std::panic::set_hook(Box::new(|_| {}));
-    // Watchdog: a case that does not finish within its limit ends the worker.
+    // Watchdog: a case that does not finish within its limit ends the worker. The limit is on the CPU
+    // time the process spent on the case, so that a loaded machine cannot turn a slow schedule into an
+    // alarm; a case that makes no progress without using the CPU (it waits on something) is ended
+    // after eight times the limit of wall-clock time.
     std::thread::spawn(|| {
-        let mut last = (u64::MAX, Instant::now());
+        let mut last = (u64::MAX, Instant::now(), process_cpu_ms());
         loop {
             std::thread::sleep(Duration::from_millis(50));
             let serial = CASE_SERIAL.load(Ordering::Relaxed);
             if serial != last.0 {
-                last = (serial, Instant::now());
-            } else if CUR_CASE.load(Ordering::Relaxed) != u64::MAX
-                && last.1.elapsed().as_millis() as u64 > CASE_TIMEOUT_MS.load(Ordering::Relaxed)
-            {
-                raw_dump(b"TIMEOUT", last.1.elapsed().as_millis() as u64);
-                unsafe { libc::_exit(71) };
+                last = (serial, Instant::now(), process_cpu_ms());
+            } else if CUR_CASE.load(Ordering::Relaxed) != u64::MAX {
+                let limit = CASE_TIMEOUT_MS.load(Ordering::Relaxed);
+                let cpu = process_cpu_ms().saturating_sub(last.2);
+                let wall = last.1.elapsed().as_millis() as u64;
+                if cpu > limit || wall > 8 * limit {
+                    raw_dump(b"TIMEOUT", cpu.max(wall / 8));
+                    unsafe { libc::_exit(71) };
+                }
             }
         }
     });
